@@ -11,12 +11,18 @@ NA = {
     "C04": "whole-history growth bound of a stateful allocator whose representation invariant (C03 core) is not established by any per-call contract within reach",
     "C05": "thread start/exit is a clone trampoline in global_asm, a kernel-written clear-tid word and a two-party hand-shake; correctness is an interleaving argument outside both verifiers",
     "C06": "resource release happens in assembly after the Rust stack is gone and depends on the order of two parties; no sequential contract over the Rust fragments implies exactly-once release",
-    "C08": "measured: alignment-dependent raw-pointer loops; Verus cannot take them verbatim, Kani/CBMC needs >5 min for n=5 and does not finish n<=40 (DESIGN §4.C08)",
     "C16": "delivery/ordering/blocking/timeouts are kernel behaviour and wall-clock; the one code-only clause (cmsg walk) computes with integer-to-pointer casts neither verifier handles without spurious failures",
 }
 
 # property -> check description; filled in as units are built
 CHECKS = {
+    "C08": {
+        "category": "proof",
+        "technique": "Verus contracts on the mechanically extracted real bodies of all 15 functions of tiny-start/src/symbols/mem.rs over one ghost byte-addressed memory (raw pointers read as addresses, rule R7), bit-vector lemmas for the alignment masks and the word broadcast; native companion for failing-input witnesses and translation validation (bounded, not counted)",
+        "text": "Deductive proof for every length, every address (hence every source/destination alignment) and every overlap: memmove leaves exactly the source range's original bytes in the destination range and changes no other address, with no restriction on overlap (direction choice by wrapping delta proved safe); memcpy the same under C's no-overlap precondition; memset fills exactly [s, s+n) with (unsigned char)c; memcmp is 0 iff equal, otherwise the difference of the first differing bytes as unsigned char; bcmp is 0 iff equal. Proved through contracts on every helper (byte head, aligned / misaligned word body, byte tail, forward and backward, the broadcast loop), including: every access lies inside the operand ranges, aligned word accesses are aligned, no address computation overflows, the constants are 8/7/16. A companion program runs the property's own grid (n <= 40, misalignments 0..15, all overlap distances, sampled to 1 MiB) on the real functions to attach a concrete failing input to a failed obligation and to check that the rewritten bodies behave as the real ones.",
+        "note": "Trusted: the ghost memory interface (flat little-endian byte map, 5 external_body accessors), rule R7's textual rewrites (listed with match counts in evidence), assumed contracts on usize::wrapping_neg and i32::from(u8), 64-bit usize. Not modelled: pointer provenance / ptr::add's in-allocation rule; #![no_builtins] code generation.",
+        "design_ref": "§4.C08, §9.7",
+    },
     "C03": {
         "category": "proof",
         "technique": "Verus contracts (with bit-vector lemmas) on the mechanically extracted pure size-class/alignment helpers of dlmalloc.rs + Kani loop-free full-domain proofs of the same helpers on the compiled crate",
